@@ -334,7 +334,7 @@ pub fn run() {
         }
     }
     let depth = if thorough { 4 } else { 3 };
-    let budget = if thorough { 2400.0 } else { 50.0 };
+    let budget = mc::budget(thorough, 50.0, 1.0);
     let start = clock::wall();
     let (mut states, mut trans, mut execs) = (0u64, 0u64, 0u64);
     let mut counters: BTreeMap<&'static str, u64> = BTreeMap::new();
